@@ -649,11 +649,23 @@ TPM_RESULT TPM_NVIndexEntries_Load(TPM_NV_INDEX_ENTRIES *tpm_nv_index_entries,
     if (rc == 0) {
 	rc = TPM_Load32(&(tpm_nv_index_entries->nvIndexCount), stream, stream_size); 
     }
+    /* nvIndexCount comes from the stream.  Refuse a count whose array size does not fit the 32-bit
+       TPM_Malloc() size parameter (the multiplication below must not wrap) */
+    if ((rc == 0) &&
+	(tpm_nv_index_entries->nvIndexCount > (TPM_ALLOC_MAX / sizeof(TPM_NV_DATA_SENSITIVE)))) {
+	printf("TPM_NVIndexEntries_Load: Error, nvIndexCount %u too large\n",
+	       tpm_nv_index_entries->nvIndexCount);
+	rc = TPM_SIZE;
+    }
     /* allocate memory for the array, nvIndexCount TPM_NV_DATA_SENSITIVE structures */
     if ((rc == 0) && (tpm_nv_index_entries->nvIndexCount > 0)) {
 	printf("  TPM_NVIndexEntries_Load: Loading %u slots\n", tpm_nv_index_entries->nvIndexCount);
 	rc = TPM_Malloc((unsigned char **)&(tpm_nv_index_entries->tpm_nvindex_entry),
 			sizeof(TPM_NV_DATA_SENSITIVE) * tpm_nv_index_entries->nvIndexCount);
+    }
+    /* without an array there are no entries: _Delete must not iterate over a NULL array */
+    if (rc != 0) {
+	tpm_nv_index_entries->nvIndexCount = 0;
     }
     /* immediately after allocating, initialize so that _Delete is safe even on a _Load error */
     for (i = 0 ; (rc == 0) && (i < tpm_nv_index_entries->nvIndexCount) ; i++) {
